@@ -50,7 +50,11 @@ def run_one(sid, checks):
 
 for a in sys.argv[1:]:
     sid, _, cs = a.partition(":")
-    run_one(sid, cs.split(",") if cs else [sid.split("-")[0]])
+    try:
+        run_one(sid, cs.split(",") if cs else [sid.split("-")[0]])
+    except Exception as e:      # one seed that cannot be run must not stop a batch
+        print(sid, "NOT-RUN", str(e)[:200], flush=True)
+        sh("git -C /repo checkout -- .")
 # leave no binary built from a changed tree behind
 # ... nor any generated Coq table (Gen/*.v) produced under it
 sh("cd /verif && python3 tools/regen.py")
